@@ -170,6 +170,9 @@ CLASSES = {"Ent": Ent, "EntKw": EntKw, "EntSub": EntSub, "EntSubSub": EntSubSub,
            "Pair": Pair}
 
 
+TYPES = {**CLASSES, "int": int, "tuple": tuple}      # what HasType may test for (values as well as entities)
+
+
 # ---- predicates (function form and class form) ---------------------------------------------
 
 @predicate
@@ -192,6 +195,16 @@ def p_n_le_a(n, e):
 
 def py_p_n_le_a(n, e):
     return e.a >= n
+
+
+@predicate
+def p_val_eq(v, w):
+    """function predicate over two VALUES (any value may be passed on, falsy ones included)"""
+    return v == w
+
+
+def py_p_val_eq(v, w):
+    return v == w
 
 
 @predicate
@@ -269,7 +282,7 @@ class BLess(Predicate):
         return self.e.b < self.f.b
 
 
-FUNC_PREDS = {"p_n_le_a": (p_n_le_a, py_p_n_le_a), "p_runs_subquery": (p_runs_subquery, py_p_runs_subquery), "p_flaky": (p_flaky, py_p_flaky), "p_a_ge": (p_a_ge, py_p_a_ge), "p_a_lt": (p_a_lt, py_p_a_lt), "p_same_b": (p_same_b, py_p_same_b)}
+FUNC_PREDS = {"p_val_eq": (p_val_eq, py_p_val_eq), "p_n_le_a": (p_n_le_a, py_p_n_le_a), "p_runs_subquery": (p_runs_subquery, py_p_runs_subquery), "p_flaky": (p_flaky, py_p_flaky), "p_a_ge": (p_a_ge, py_p_a_ge), "p_a_lt": (p_a_lt, py_p_a_lt), "p_same_b": (p_same_b, py_p_same_b)}
 CLASS_PREDS = {"IsBig": (IsBig, lambda e: e.k >= 2), "BLess": (BLess, lambda e, f: e.b < f.b)}
 
 
